@@ -340,6 +340,24 @@ RUST_TUPLE_CASES = [
 ]
 
 
+# the three-argument form with an instance expression that reaches the struct through deref coercion (Box, Rc, a wrapper
+# with Deref<Target = the struct>): base and field address must come from the same object
+COERCED_CASES = [("coer_a", "a", 4), ("coer_b", "b", 8), ("coer_c", "c", 2)]
+
+
+def coerced_module(field):
+    return ("#[derive(Default)] #[repr(C)] pub struct BN { pub a: u32, pub b: u64, pub c: u16 }\n"
+            "pub struct Hold { pub tag: u32, pub inner: BN }\n"
+            "impl core::ops::Deref for Hold { type Target = BN; fn deref(&self) -> &BN { &self.inner } }\n"
+            "pub fn facts() -> String {\n"
+            "  let a = bytemuck::offset_of!(BN, F) as i64;\n"
+            "  let b1 = std::panic::catch_unwind(|| { let bx: Box<BN> = Box::new(BN::default()); bytemuck::offset_of!(bx, BN, F) as i64 }).unwrap_or(-2);\n"
+            "  let b2 = std::panic::catch_unwind(|| { let h = Hold { tag: 1, inner: BN::default() }; bytemuck::offset_of!(h, BN, F) as i64 }).unwrap_or(-2);\n"
+            "  let b3 = std::panic::catch_unwind(|| { let r: std::rc::Rc<BN> = std::rc::Rc::new(BN::default()); bytemuck::offset_of!(r, BN, F) as i64 }).unwrap_or(-2);\n"
+            "  let b = if b1 == b2 && b2 == b3 { b1 } else { -3 };\n"
+            "  format!(\"{} {} {}\", a, b, core::mem::offset_of!(BN, F)) }").replace("F)", field + ")")
+
+
 def rust_tuple_module(defn, ty, field):
     cty = ty.replace("::<", "<")
     return (defn + "\npub fn facts() -> String {\n"
@@ -400,6 +418,8 @@ def offset_modules(defs):
         mods.append((m, generic_offset_module(first, second)))
     for (m, defn, ty, field, _) in RUST_TUPLE_CASES:
         mods.append((m, rust_tuple_module(defn, ty, field)))
+    for (m, field, _) in COERCED_CASES:
+        mods.append((m, coerced_module(field)))
     return mods
 
 
@@ -489,7 +509,7 @@ def struct_lines(defs, verdicts, facts):
             else:
                 v = [0, 0, falign, -1, -1, falign]
             lines.append("503 0 0 0 0 0 0 0 0 - ; V %s ; %s ; 3" % (" ".join(str(x) for x in v), m))
-    for (m, defn, ty, field, falign) in RUST_TUPLE_CASES:
+    for (m, defn, ty, field, falign) in RUST_TUPLE_CASES + [(m0, None, None, f0, al0) for (m0, f0, al0) in COERCED_CASES]:
         if m in verdicts:
             if verdicts[m] is None and m in facts:
                 a, b, c = [int(x) for x in facts[m].split()]
